@@ -870,13 +870,12 @@ def stream(r, progs, n, driver=None):
         replies = driver.ask(lines)
         for c, rv, rep in zip(cases, reals, replies):
             key = dict(prog=prog, case=c)
-<<<<<<< HEAD
-            tags = [f"il:{prog}"] + ([f"il:{prog}:{c['cls']}"] if isinstance(c, dict) and "cls" in c else [])
+            tags = [f"il:{prog}"]
+            if isinstance(c, dict):
+                if "cls" in c:
+                    tags.append(f"il:{prog}:{c['cls']}")
+                tags += [f"il:{prog}:{t}" for t in c.get("tags", [])]
             r.case(key, desc=f"il:{prog} {str(c)[:120]}", nontrivial=True, tags=tags)
-=======
-            r.case(key, desc=f"il:{prog} {str(c)[:120]}", nontrivial=True,
-                   tags=[f"il:{prog}"] + [f"il:{prog}:{t}" for t in (c.get("tags", []) if isinstance(c, dict) else [])])
->>>>>>> wip3/trim
             if rv[0] == "skip":
                 continue
             if rv[0] == "err":
